@@ -61,6 +61,10 @@ type Fault struct {
 	// Kill additionally breaks the connection after the fault fired (like a network failure):
 	// its transaction is rolled back (unless After on a commit) and later use returns driver.ErrBadConn.
 	Kill bool
+	// SkipMeta: metadata queries outside a transaction (INFORMATION_SCHEMA.*) are neither counted nor failed.  The
+	// client's table-metadata cache refreshes itself on a one-minute ticker from a background goroutine; without
+	// this a fault planned for "the n-th statement of this rollback" now and then lands on the bystander's query.
+	SkipMeta bool
 }
 
 type faultState struct {
@@ -284,6 +288,9 @@ func (s *Server) matchFault(connect bool, e *Entry) *faultState {
 				continue
 			}
 			if f.Conn != 0 && f.Conn != e.Conn {
+				continue
+			}
+			if f.SkipMeta && !e.InTx && strings.HasPrefix(e.Table, "information_schema") {
 				continue
 			}
 		}
